@@ -53,7 +53,7 @@ func futureCase(c *kit.Ctx, id string, i int) {
 		main = append(main, b)
 	}
 	// the invalid sibling first (built, not committed), then the valid future block and its child
-	g.atTime = uint64(time.Now().Unix()) + 13 + uint64(r.Intn(3))
+	g.atTime = uint64(time.Now().Unix()) + 21 + uint64(r.Intn(4)) // beyond now+AllowedFutureBlockTime (10 s) with a margin for slow block building, within the 30 s the chain tolerates
 	tamper := tampers[[]int{0, 1, 2, 4}[i%4]]
 	bad, err1 := g.extend(m, 1+r.Intn(2), tamper.f, tamper.name+"(future)", false)
 	f1, err2 := g.extend(m, r.Intn(3), nil, "", true)
@@ -113,7 +113,7 @@ func futureCase(c *kit.Ctx, id string, i int) {
 		}
 	}
 	// bounded wait for the chain's own timer (wall clock decides only when to look)
-	deadline := time.Now().Add(28 * time.Second)
+	deadline := time.Now().Add(45 * time.Second)
 	imported := false
 	for ok && time.Now().Before(deadline) {
 		time.Sleep(700 * time.Millisecond)
